@@ -1,10 +1,10 @@
 #!/bin/bash
 # seed_store2.sh <seed-id> <out-dir> <property> <demo-rel-path> <needs>
 id=$1; out=$2; prop=$3; rel=$4; needs=$5; d=/verif/seeded/$id; mkdir -p $d; cp $out/patch.diff $d/; cp $out/*_test.go $d/; cp $out/notes.md $d/ 2>/dev/null
-python3 - "$d" "$prop" "$rel" "$needs" <<'PY'
+python3 - "$d" "$prop" "$rel" "$needs" <<PY
 import json,sys
 d,prop,rel,needs=sys.argv[1:5]
 json.dump({"breaks_property":prop,"demo_file":rel,"needs_to_manifest":needs,
  "confirmed_by":"tools/seed_verify.sh in a fresh scratch worktree of /repo HEAD: demo passes on the unchanged tree; with the patch the unedited suite passes and the demo fails",
- "source":"independent sub-agent given only the property text and its own scratch worktree (round 2)"},open(d+"/meta.json","w"),indent=1)
+ "source":"independent sub-agent given only the property text and its own scratch worktree (round ${SEED_ROUND:-2})"},open(d+"/meta.json","w"),indent=1)
 PY
